@@ -38,6 +38,10 @@ package witness
 //@   let nsigNext := nsig(nextRaw)
 //@   let nsigOut  := nsig(set_arg)
 //@   let nSigners := len(w.Signers)
+//@   prefer oldSize <= 64 && nS <= 64 && pS <= 64
+//@   prefer len(cProof) <= 4
+//@   prefer len(w.Signers) <= 2 && len(w.Signers) >= 1
+//@   prefer nsig(nextRaw) >= 1 && kept(nextRaw, w.Signers) == nsig(nextRaw)
 //@   let cAttempt := counterUpdateAttempt
 //@   let cSuccess := counterUpdateSuccess
 //@   let cInvalid := counterInvalidConsistency
@@ -65,6 +69,7 @@ package witness
 //@   ensures[C04.b]  err == nil ==> signCalled && sign_err == nil && out == sign_out && set_arg == out
 //@   ensures[C04.b]  err == nil ==> out == cosign(nextRaw, w.Signers, old(n_sign)) && out != nil
 //@   ensures[C04.c]  err == nil ==> st_has[S][logID] && st_val[S][logID] == out
+//@   ensures[C04.d]  err == nil ==> parsesAs(out, L.Origin, L.SigV) && text(out) == text(nextRaw)
 //@   ensures[C02.a]  err == nil ==> known && nOK
 //@   ensures[C02.b]  !known ==> out == nil && err == ErrUnknownLog && !woCalled && !signCalled && cnt == old(cnt) && n_ro == old(n_ro)
 //@   ensures[C02.c]  committed ==> text(set_arg) == text(nextRaw) && known && nOK
